@@ -12,6 +12,28 @@ from prov.identifier import Identifier, Namespace  # noqa: E402
 from pv.gen import CONVENIENCE, KINDS, NO_ID_FACTORY, SUBTYPE_FACTORIES, TIME_ATTRS  # noqa: E402
 
 REC_TYPES = {k: PROV[k] for k in KINDS}
+ALIASES = {"generation": "wasGeneratedBy", "usage": "used", "start": "wasStartedBy", "end": "wasEndedBy", "invalidation": "wasInvalidatedBy",
+           "communication": "wasInformedBy", "attribution": "wasAttributedTo", "association": "wasAssociatedWith",
+           "delegation": "actedOnBehalfOf", "influence": "wasInfluencedBy", "derivation": "wasDerivedFrom", "revision": "wasRevisionOf",
+           "quotation": "wasQuotedFrom", "primary_source": "hadPrimarySource", "alternate": "alternateOf",
+           "specialization": "specializationOf", "mention": "mentionOf", "membership": "hadMember"}
+
+
+def _style(label):
+    """Deterministic call style of a factory call: bit0 alias method, bit1 keyword arguments, bit2 dict-form extras."""
+    import zlib
+    return zlib.crc32(label.encode("utf-8")) % 8
+
+
+def _extras_arg(ex, style):
+    if style & 4 and ex:
+        d = {}
+        for n, v in ex:
+            if n in d:
+                return ex          # an attribute with several values cannot be given as a dict
+            d[n] = v
+        return d
+    return ex
 
 
 class State:
@@ -122,7 +144,19 @@ def exec_op(st, op):
         b = st.doc.bundle(st.mk_name(op[2]))
         st.tg[op[1]] = b
         return b
+    if k == "docinit":
+        if st.doc._records or st.doc._bundles or len(st.tg) > 1:
+            raise Skip("late-docinit")
+        nss = op[1]
+        st.doc = pm.ProvDocument(namespaces=dict(nss) if op[2] == "dict" else [st.namespace(p, u) for p, u in nss])
+        st.tg["D"] = st.doc
+        return st.doc
     if k == "sbundle":
+        if len(op) > 3 and op[3]:
+            b = pm.ProvBundle(identifier=st.mk_name(op[2]), namespaces=dict(op[3]) if op[4] == "dict" else [st.namespace(p, u) for p, u in op[3]])
+            st.tg[op[1]] = b
+            st.detached.add(op[1])
+            return b
         b = pm.ProvBundle(identifier=st.mk_name(op[2]))
         st.tg[op[1]] = b
         st.detached.add(op[1])
@@ -167,19 +201,33 @@ def exec_op(st, op):
             rec = recv.bundle._records[-1] if len(recv.bundle._records) == before + 1 else None
         elif via.startswith("factory:"):
             fname = via.split(":", 1)[1]
+            style = _style(label)
             if fname == "collection":
-                rec = b.collection(ident, ex)
+                rec = b.collection(ident, _extras_arg(ex, style)) if not style & 2 else b.collection(identifier=ident, other_attributes=_extras_arg(ex, style))
             else:
-                rec = getattr(b, fname)(*pos, identifier=ident, other_attributes=ex)
+                meth = getattr(b, ALIASES[fname] if style & 1 else fname)
+                if style & 2:
+                    rec = meth(identifier=ident, other_attributes=_extras_arg(ex, style), **{f: fargs.get(f) for f in formals})
+                else:
+                    rec = meth(*pos, identifier=ident, other_attributes=_extras_arg(ex, style))
         elif via == "factory" and not (kind in NO_ID_FACTORY and (rid is not None or ex)):
+            style = _style(label)
             if kind in ("Entity", "Agent"):
-                rec = getattr(b, factory)(ident, ex)
+                rec = getattr(b, factory)(ident, _extras_arg(ex, style)) if not style & 2 else \
+                    getattr(b, factory)(identifier=ident, other_attributes=_extras_arg(ex, style))
             elif kind == "Activity":
-                rec = b.activity(ident, fargs.get("startTime"), fargs.get("endTime"), ex)
-            elif kind in NO_ID_FACTORY:
-                rec = getattr(b, factory)(*pos)
+                if style & 2:
+                    rec = b.activity(identifier=ident, endTime=fargs.get("endTime"), startTime=fargs.get("startTime"), other_attributes=_extras_arg(ex, style))
+                else:
+                    rec = b.activity(ident, fargs.get("startTime"), fargs.get("endTime"), _extras_arg(ex, style))
             else:
-                rec = getattr(b, factory)(*pos, identifier=ident, other_attributes=ex)
+                meth = getattr(b, ALIASES[factory] if style & 1 else factory)
+                if kind in NO_ID_FACTORY:
+                    rec = meth(**{f: fargs.get(f) for f in formals}) if style & 2 else meth(*pos)
+                elif style & 2:
+                    rec = meth(identifier=ident, other_attributes=_extras_arg(ex, style), **{f: fargs.get(f) for f in formals})
+                else:
+                    rec = meth(*pos, identifier=ident, other_attributes=_extras_arg(ex, style))
         else:
             rec = b.new_record(REC_TYPES[kind], ident, [(PROV[f], v) for f, v in fargs.items()], ex)
         if rec is not None:
